@@ -34,15 +34,24 @@ type exotic struct {
 	name   string
 	target func() interface{} // pointer to a fresh zero value
 	twin   func() interface{} // nil: no twin
+	pre    func() interface{} // if set: the same Unfolder was first given this target (and Reset)
+}
+
+// a recursive type with a field that cannot be unfolded into
+type exRecBad struct {
+	V    int
+	Next *exRecBad
+	Kids []exRecBad
+	Bad  chan int
 }
 
 var exotics = []exotic{
-	{"map[NamedStr]struct", func() interface{} { return new(map[exNamedStr]exInner) }, func() interface{} { return new(map[string]exInner) }},
-	{"map[NamedStr][]int", func() interface{} { return new(map[exNamedStr][]int) }, func() interface{} { return new(map[string][]int) }},
-	{"map[NamedStr]map[string]any", func() interface{} { return new(map[exNamedStr]map[string]interface{}) }, func() interface{} { return new(map[string]map[string]interface{}) }},
-	{"map[NamedStr]*int", func() interface{} { return new(map[exNamedStr]*int) }, func() interface{} { return new(map[string]*int) }},
-	{"map[NamedStr]int", func() interface{} { return new(map[exNamedStr]int) }, func() interface{} { return new(map[string]int) }},
-	{"map[NamedStr]any", func() interface{} { return new(map[exNamedStr]interface{}) }, func() interface{} { return new(map[string]interface{}) }},
+	{"map[NamedStr]struct", func() interface{} { return new(map[exNamedStr]exInner) }, func() interface{} { return new(map[string]exInner) }, nil},
+	{"map[NamedStr][]int", func() interface{} { return new(map[exNamedStr][]int) }, func() interface{} { return new(map[string][]int) }, nil},
+	{"map[NamedStr]map[string]any", func() interface{} { return new(map[exNamedStr]map[string]interface{}) }, func() interface{} { return new(map[string]map[string]interface{}) }, nil},
+	{"map[NamedStr]*int", func() interface{} { return new(map[exNamedStr]*int) }, func() interface{} { return new(map[string]*int) }, nil},
+	{"map[NamedStr]int", func() interface{} { return new(map[exNamedStr]int) }, func() interface{} { return new(map[string]int) }, nil},
+	{"map[NamedStr]any", func() interface{} { return new(map[exNamedStr]interface{}) }, func() interface{} { return new(map[string]interface{}) }, nil},
 	{"struct{M map[NamedStr]Inner}", func() interface{} {
 		return new(struct {
 			M map[exNamedStr]exInner
@@ -53,30 +62,34 @@ var exotics = []exotic{
 			M map[string]exInner
 			N int
 		})
-	}},
-	{"[]NamedEmpty", func() interface{} { return new([]exEmpty) }, func() interface{} { return new([]interface{}) }},
-	{"map[string]NamedEmpty", func() interface{} { return new(map[string]exEmpty) }, func() interface{} { return new(map[string]interface{}) }},
-	{"map[string]IntList", func() interface{} { return new(map[string]exIntList) }, func() interface{} { return new(map[string][]int) }},
-	{"[]StrMap", func() interface{} { return new([]exStrMap) }, func() interface{} { return new([]map[string]string) }},
-	{"[]NamedStr", func() interface{} { return new([]exNamedStr) }, func() interface{} { return new([]string) }},
+	}, nil},
+	{"[]NamedEmpty", func() interface{} { return new([]exEmpty) }, func() interface{} { return new([]interface{}) }, nil},
+	{"map[string]NamedEmpty", func() interface{} { return new(map[string]exEmpty) }, func() interface{} { return new(map[string]interface{}) }, nil},
+	{"map[string]IntList", func() interface{} { return new(map[string]exIntList) }, func() interface{} { return new(map[string][]int) }, nil},
+	{"[]StrMap", func() interface{} { return new([]exStrMap) }, func() interface{} { return new([]map[string]string) }, nil},
+	{"[]NamedStr", func() interface{} { return new([]exNamedStr) }, func() interface{} { return new([]string) }, nil},
 	// interfaces with methods: cannot hold generic data
-	{"[]Stringer", func() interface{} { return new([]exStringer) }, nil},
-	{"map[string]error", func() interface{} { return new(map[string]error) }, nil},
+	{"[]Stringer", func() interface{} { return new([]exStringer) }, nil, nil},
+	{"map[string]error", func() interface{} { return new(map[string]error) }, nil, nil},
 	{"struct{A int; F Stringer}", func() interface{} {
 		return new(struct {
 			A int
 			F exStringer
 		})
-	}, nil},
-	{"*Stringer", func() interface{} { return new(exStringer) }, nil},
-	{"[]*Stringer", func() interface{} { return new([]*exStringer) }, nil},
-	{"map[NamedStr]Stringer", func() interface{} { return new(map[exNamedStr]exStringer) }, nil},
+	}, nil, nil},
+	{"*Stringer", func() interface{} { return new(exStringer) }, nil, nil},
+	{"[]*Stringer", func() interface{} { return new([]*exStringer) }, nil, nil},
+	{"map[NamedStr]Stringer", func() interface{} { return new(map[exNamedStr]exStringer) }, nil, nil},
 	{"struct{S []error}", func() interface{} {
 		return new(struct {
 			S []error
 			T string
 		})
-	}, nil},
+	}, nil, nil},
+	// an Unfolder that refused a recursive type once must refuse everything built from it as a new one does
+	{"**RecBad after *RecBad", func() interface{} { return new(*exRecBad) }, func() interface{} { return new(*exRecBad) }, func() interface{} { return new(exRecBad) }},
+	{"*[]RecBad after *RecBad", func() interface{} { return new([]exRecBad) }, func() interface{} { return new([]exRecBad) }, func() interface{} { return new(exRecBad) }},
+	{"map[string]*RecBad after *RecBad", func() interface{} { return new(map[string]*exRecBad) }, func() interface{} { return new(map[string]*exRecBad) }, func() interface{} { return new(exRecBad) }},
 }
 
 // printNorm prints a value without type names, maps sorted by key.
@@ -172,10 +185,14 @@ func integrity(v reflect.Value, path string) string {
 	return ""
 }
 
-func exoticUnfold(target interface{}, evs []event) string {
+func exoticUnfold(pre, target interface{}, evs []event) string {
 	u, err := gotype.NewUnfolder(nil)
 	if err != nil {
 		return "SETUPERR"
+	}
+	if pre != nil {
+		_ = u.SetTarget(pre) // an earlier target of this Unfolder (refused or not)
+		u.Reset()
 	}
 	if err := u.SetTarget(target); err != nil {
 		return "SETUPERR"
@@ -198,9 +215,13 @@ func exoticRun(idx int, evs []event) string {
 	x := exotics[idx]
 	var res string
 	o := guard(guardTime, func() {
-		res = exoticUnfold(x.target(), evs)
+		var pre interface{}
+		if x.pre != nil {
+			pre = x.pre()
+		}
+		res = exoticUnfold(pre, x.target(), evs)
 		if x.twin != nil && !strings.HasPrefix(res, "CORRUPT") {
-			tw := exoticUnfold(x.twin(), evs)
+			tw := exoticUnfold(nil, x.twin(), evs)
 			if tw != res {
 				res += " ## TWIN " + strings.ReplaceAll(tw, " ", "_")
 			}
@@ -218,7 +239,9 @@ func exoticCase(r *rng) string {
 	// a stream that fits the target's shape (folded from a value of the twin type, or of a
 	// look-alike for the method-interface targets), delivered in varying ways
 	var shape reflect.Type
-	if x.twin != nil {
+	if strings.Contains(x.name, "RecBad") {
+		shape = reflect.TypeOf(struct{ V int }{})
+	} else if x.twin != nil {
 		shape = reflect.TypeOf(x.twin()).Elem()
 	} else {
 		shape = map[string]reflect.Type{
